@@ -49,11 +49,13 @@ def parseOp (fs : List String) : Option Op :=
   | ["unreg", e, u] => match e.toNat?, u.toNat? with
     | some e, some u => some (.unregister e u)
     | _, _ => none
+  | ["edown", e] => e.toNat?.map Op.engineDown
+  | ["eup", e] => e.toNat?.map Op.engineUp
   | _ => none
 
 /-- ops: `init <nUnits>` / `initold <nUnits>` (model of the code before the repair; self-test mutant), then
     `sub <c> <topics>` (`u<k>` = dead_man_switch/<user k>, `x` = other topic, `b` = dead_man_switch without "/"),
-    `disc <c>`, `reg <unit> <user>`, `unreg <unit> <user>`.
+    `disc <c>`, `reg <unit> <user>`, `unreg <unit> <user>`, `edown <unit>` / `eup <unit>` (engine leaves / registers).
     Answer: `<result>|A:<unit:users;…>|D:<connection:users;…>` -/
 def step (st : St) (line : String) : St × String :=
   match fields line with
